@@ -1,7 +1,8 @@
 // h_fs.cpp - C19: path functions against a lexical path algebra, File histories against a byte-array/inode model checked on disk through
 // libc, Directory::create truthfulness and recursive unlink containment on random trees with links to outside locations.
 // modes: paths-str (all strings over "a./\b" up to length `scale`), paths-comp (component grammar), paths-rel (pairs for getRelativePath),
-//        paths-rand (random longer names), files (operation histories + failpoints), trees (random trees, create/unlink)
+//        paths-rand (random longer names), files (operation histories + failpoints), files-alias (the same histories, every path argument
+//        in one of 8 spellings of the same directory entry, plus a sweep of failing calls on a missing name), trees (random trees, create/unlink)
 #include "vh.hpp"
 #include "scratch.hpp"
 #include "../interpose/fs_shims.hpp"
@@ -274,10 +275,29 @@ static void bwrite(Bytes& v, size_t pos, const u8* p, size_t n) {
 }
 struct Ino { Bytes d; };
 struct Hnd { File* f; bool open; int ino; long pos; bool r, w; };
+// spellings of one directory entry <case dir>/<leaf> (mode files-alias); all are pairwise textually different
+static const char* const SPELL[] = { "plain", "dot-component", "subdir-dotdot", "double-separator", "other-absoluteness", "symlinked-directory", "symlink-to-parent", "parent-and-back" };
+enum { NSPELL = 8 };
 struct FCase {
-  Vec<Ino*> inos; int name[3]; Hnd h[2]; char dir[160]; char pbuf[4][200]; int pk;
-  const char* path(int i) { char* b = pbuf[pk++ & 3]; snprintf(b, 200, "%s/f%d", dir, i); return b; }
-  const char* sub(const char* s) { char* b = pbuf[pk++ & 3]; snprintf(b, 200, "%s/%s", dir, s); return b; }
+  Vec<Ino*> inos; int name[3]; Hnd h[2]; char dir[160]; char pbuf[4][240]; int pk; bool absolute; long idx;
+  const char* path(int i) { char* b = pbuf[pk++ & 3]; snprintf(b, 240, "%s/f%d", dir, i); return b; }
+  const char* sub(const char* s) { char* b = pbuf[pk++ & 3]; snprintf(b, 240, "%s/%s", dir, s); return b; }
+  // the path argument handed to the library: style 0 is what path()/sub() produce
+  const char* spell(const char* leaf, int style) {
+    char* b = pbuf[pk++ & 3]; int k;
+    switch (style) {
+    case 1: k = absolute ? snprintf(b, 240, "%s/./%s", dir, leaf) : snprintf(b, 240, "./%s/%s", dir, leaf); break;
+    case 2: k = snprintf(b, 240, "%s/d/../%s", dir, leaf); break;
+    case 3: k = snprintf(b, 240, "%s//%s", dir, leaf); break;
+    case 4: k = absolute ? snprintf(b, 240, "F%ld/%s", idx, leaf) : snprintf(b, 240, "%s/F%ld/%s", scratch::root, idx, leaf); break;
+    case 5: k = absolute ? snprintf(b, 240, "%s/F%ldL/%s", scratch::root, idx, leaf) : snprintf(b, 240, "F%ldL/%s", idx, leaf); break;   // F<idx>L -> F<idx>
+    case 6: k = snprintf(b, 240, "%s/d/up/%s", dir, leaf); break;                                                                          // d/up -> ..
+    case 7: k = snprintf(b, 240, "%s/../F%ld/%s", dir, idx, leaf); break;
+    default: k = snprintf(b, 240, "%s/%s", dir, leaf); break;
+    }
+    if (k >= 240) harnessBug("path too long");
+    return b;
+  }
   int newIno() { inos.push(new Ino); return (int)inos.n - 1; }
 };
 static FCase* F = 0;
@@ -346,7 +366,7 @@ static long pickSize(Rng& r) { u64 c = r.below(100); if (c < 70) return r.range(
 static const char* flagStr(uint fl) { static char b[8]; int n = 0; if (fl & File::readFlag) b[n++] = 'r'; if (fl & File::writeFlag) b[n++] = 'w'; if (fl & File::appendFlag) b[n++] = 'a'; if (fl & File::openFlag) b[n++] = 'o'; if (!n) b[n++] = '0'; b[n] = 0; return b; }
 #define FKEY(kind) (snprintf(kbuf, sizeof kbuf, "%s/%s", (const char*)ctx, kind), kbuf)
 
-static void fileHistories() {
+static void fileHistories(bool alias) {
   fsshim::setPrefix(scratch::root);
   if (chdir(scratch::root) != 0) harnessBug("chdir scratch");
   g_injAllowed = !excluded("no-injection");
@@ -354,34 +374,52 @@ static void fileHistories() {
   for (long idx = opts.start; idx < opts.start + opts.cases; ++idx) {
     if (!mine(idx)) continue;
     beginCase(idx);
-    Rng r(opts.seed, 1905, (u64)idx);
-    FCase fc; F = &fc; fc.pk = 0;
-    bool absolute = r.chance(1, 4);
+    Rng r(opts.seed, alias ? 1907 : 1905, (u64)idx);
+    FCase fc; F = &fc; fc.pk = 0; fc.idx = idx;
+    bool absolute = r.chance(1, 4); fc.absolute = absolute;
     if (absolute) snprintf(fc.dir, sizeof fc.dir, "%s/F%ld", scratch::root, idx); else snprintf(fc.dir, sizeof fc.dir, "F%ld", idx);
-    { char p[200]; snprintf(p, sizeof p, "%s/F%ld", scratch::root, idx); scratch::rmrf(p); }
+    char sideLink[200]; snprintf(sideLink, sizeof sideLink, "%s/F%ldL", scratch::root, idx);
+    { char p[200]; snprintf(p, sizeof p, "%s/F%ld", scratch::root, idx); scratch::rmrf(p); scratch::rmrf(sideLink); }
     if (mkdir(fc.dir, 0700) != 0 || mkdir(fc.sub("d"), 0700) != 0) harnessBug("mkdir case dir %s: %s", fc.dir, strerror(errno));
+    if (alias) { char t[40]; snprintf(t, sizeof t, "F%ld", idx); if (symlink(t, sideLink) != 0 || symlink("..", fc.sub("d/up")) != 0) harnessBug("symlinks for the aliased spellings: %s", strerror(errno)); }
     for (int i = 0; i < 3; ++i) fc.name[i] = -1;
     for (int i = 0; i < 2; ++i) { fc.h[i].f = new File; fc.h[i].open = false; fc.h[i].ino = -1; fc.h[i].pos = 0; fc.h[i].r = fc.h[i].w = false; }
     int nops = (int)r.range(15, 90);
     int w[16]; int tot = 0; for (int i = 0; i < 16; ++i) { w[i] = r.chance(1, 5) ? 0 : (int)r.range(1, 8); } w[0] += 4; w[2] += 3; for (int i = 0; i < 16; ++i) tot += w[i];
     hist.addf("# file history in %s (names f0..f2, directory d, 2 handles), %d ops\n", fc.dir, nops);
-    u64 fp = 0; int okMoves = 0, failures = 0;
-    for (int o = 0; o < nops; ++o) {
+    int nsweep = 0;
+    if (alias) { nsweep = 12; hist.addf("# path arguments in different spellings of the same entry (F%ldL -> F%ld and d/up -> .. are symbolic links); the last %d ops are failing calls on a missing name\n", idx, idx, nsweep); }
+    u64 fp = 0; int okMoves = 0, failures = 0; long aliasFailures = 0;
+    for (int o = 0; o < nops + nsweep; ++o) {
       int pick = (int)r.below((u64)tot), kind = 0; while (pick >= w[kind]) pick -= w[kind++];
       int hi = (int)r.below(2); Hnd& h = fc.h[hi]; int a = (int)r.below(3), b = (int)r.below(3);
-      fp = mix(fp, (u64)kind * 64 + (u64)a * 8 + (u64)b);
+      // files-alias: s1/s2 = spelling of the first/second path argument. sweep = forced failing call: the (first) path names a missing file, the
+      // second one is with probability 1/2 the same entry in a different spelling
+      int s1 = 0, s2 = 0; bool sweep = o >= nops;
+      if (alias) { s1 = r.chance(1, 4) ? 0 : (int)r.below(NSPELL); s2 = r.chance(1, 4) ? 0 : (int)r.below(NSPELL); }
+      if (sweep) {
+        static const int SK[] = { 12, 12, 12, 13, 14, 11, 10, 9, 0, 12 }; kind = SK[r.below(10)];
+        int miss[3], nm = 0; for (int i = 0; i < 3; ++i) if (fc.name[i] < 0) miss[nm++] = i;
+        if (nm) a = miss[r.below((u64)nm)]; else kind = 11;   // nothing is missing: a successful unlink first
+        if (kind == 12 || kind == 13) { if (r.chance(1, 2)) b = a; }
+        s1 = (int)r.below(NSPELL); s2 = (int)((s1 + 1 + (int)r.below(NSPELL - 1)) % NSPELL);
+      }
+      char la[8], lb[8]; snprintf(la, sizeof la, "f%d", a); snprintf(lb, sizeof lb, "f%d", b);
+      fp = mix(fp, (u64)kind * 64 + (u64)a * 8 + (u64)b); if (alias) fp = mix(fp, (u64)(s1 * NSPELL + s2));
+      int failuresBefore = failures; bool twoPaths = kind >= 12, onePath = kind == 0 || (kind >= 9 && kind <= 11);
       g_inj.on = false;
       switch (kind) {
       case 0: { // open
         static const uint FL[] = { File::readFlag, File::writeFlag, File::readFlag | File::writeFlag, File::writeFlag | File::appendFlag, File::readFlag | File::writeFlag | File::appendFlag,
                                    File::writeFlag | File::openFlag, File::readFlag | File::writeFlag | File::openFlag, File::writeFlag | File::appendFlag | File::openFlag, File::readFlag | File::appendFlag, 0 };
         uint fl = FL[r.below(10)]; int tgt = (int)r.below(20);   // 0: directory with write access, 1: inside a missing directory, else a file name
+        if (sweep) { fl = r.chance(1, 2) ? (uint)File::readFlag : (uint)(File::writeFlag | File::openFlag); tgt = 2; }
         bool rw = (fl & 3) == 3, wOnly = !rw && (fl & File::writeFlag), rOnly = !rw && !wOnly;
         if (tgt == 0 && rOnly) tgt = 2;
-        const char* p = tgt == 0 ? fc.sub("d") : tgt == 1 ? fc.sub("nodir/x") : fc.path(a);
+        const char* p = fc.spell(tgt == 0 ? "d" : tgt == 1 ? "nodir/x" : la, s1);
         bool exists = tgt > 1 && fc.name[a] >= 0;
-        static const int fns[] = { fsshim::F_OPEN }; planInj(r, fns, 1, 1);
-        setctxf("File.open/flags=%s,target=%s%s%s", flagStr(fl), tgt == 0 ? "directory" : tgt == 1 ? "in-missing-directory" : exists ? "existing" : "missing", h.open ? ",handle-already-open" : "", injTag());
+        static const int fns[] = { fsshim::F_OPEN }; planInj(r, fns, 1, 1); if (sweep) g_inj.on = false;
+        setctxf("File.open/flags=%s,target=%s%s%s%s", flagStr(fl), tgt == 0 ? "directory" : tgt == 1 ? "in-missing-directory" : exists ? "existing" : "missing", h.open ? ",handle-already-open" : "", s1 ? ",path=aliased" : "", injTag());
         hist.addf("h%d.open(\"%s\", %s)\n", hi, p, flagStr(fl)); injHist();
         arm(); bool ret = h.f->open(String(p, strlen(p)), fl); bool inj = disarm();
         bool create = (rw || wOnly) && !(fl & File::openFlag), trunc = wOnly && !(fl & (File::openFlag | File::appendFlag));
@@ -461,9 +499,10 @@ static void fileHistories() {
         cnt("op_size"); break; }
       case 8: { if (!h.open) break; setctx("File.flush"); hist.addf("h%d.flush()\n", hi); if (!h.f->flush()) fail(FKEY("result"), "flush returned false"); cnt("op_flush"); break; }
       case 9: { // static readAll
-        int tgt = (int)r.below(12); const char* p = tgt == 0 ? fc.sub("nodir/x") : fc.path(a); bool exists = tgt && fc.name[a] >= 0;
-        static const int fns[] = { fsshim::F_OPEN, fsshim::F_READ }; planInj(r, fns, 2, 1);
-        setctxf("File.readAll(path)/%s%s", exists ? "existing" : "missing", injTag()); hist.addf("File::readAll(\"%s\")\n", p); injHist();
+        int tgt = (int)r.below(12); if (sweep) tgt = 1;
+        const char* p = fc.spell(tgt == 0 ? "nodir/x" : la, s1); bool exists = tgt && fc.name[a] >= 0;
+        static const int fns[] = { fsshim::F_OPEN, fsshim::F_READ }; planInj(r, fns, 2, 1); if (sweep) g_inj.on = false;
+        setctxf("File.readAll(path)/%s%s%s", exists ? "existing" : "missing", s1 ? ",path=aliased" : "", injTag()); hist.addf("File::readAll(\"%s\")\n", p); injHist();
         String data("previous content");
         arm(); bool ret = File::readAll(String(p, strlen(p)), data); bool inj = disarm();
         bool want = exists && !inj;
@@ -472,15 +511,18 @@ static void fileHistories() {
         else ++failures;
         cnt("op_readAll_path"); break; }
       case 10: { // exists
-        int tgt = (int)r.below(8); const char* p = tgt == 0 ? fc.sub("d") : tgt == 1 ? fc.sub("nodir/x") : fc.path(a); bool want = tgt == 0 || (tgt > 1 && fc.name[a] >= 0);
-        setctxf("File.exists/%s", tgt == 0 ? "directory" : want ? "existing" : "missing"); hist.addf("File::exists(\"%s\")\n", p);
+        int tgt = (int)r.below(8); if (sweep) tgt = 2;
+        const char* p = fc.spell(tgt == 0 ? "d" : tgt == 1 ? "nodir/x" : la, s1); bool want = tgt == 0 || (tgt > 1 && fc.name[a] >= 0);
+        setctxf("File.exists/%s%s", tgt == 0 ? "directory" : want ? "existing" : "missing", s1 ? ",path=aliased" : ""); hist.addf("File::exists(\"%s\")\n", p);
         bool ret = File::exists(String(p, strlen(p)));
         if (ret != want) fail(FKEY("result"), "exists returned %d, expected %d", (int)ret, (int)want);
+        if (!want && s1) { ++aliasFailures; cnt("failing_calls_with_aliased_path"); }
         cnt("op_exists"); break; }
       case 11: { // unlink
-        int tgt = (int)r.below(10); const char* p = tgt == 0 ? fc.sub("d") : fc.path(a); bool exists = tgt && fc.name[a] >= 0;
-        static const int fns[] = { fsshim::F_UNLINK }; planInj(r, fns, 1, 1);
-        setctxf("File.unlink/%s%s", tgt == 0 ? "directory" : exists ? "existing" : "missing", injTag()); hist.addf("File::unlink(\"%s\")\n", p); injHist();
+        int tgt = (int)r.below(10); if (sweep) tgt = 1;
+        const char* p = fc.spell(tgt == 0 ? "d" : la, s1); bool exists = tgt && fc.name[a] >= 0;
+        static const int fns[] = { fsshim::F_UNLINK }; planInj(r, fns, 1, 1); if (sweep) g_inj.on = false;
+        setctxf("File.unlink/%s%s%s", tgt == 0 ? "directory" : exists ? "existing" : "missing", s1 ? ",path=aliased" : "", injTag()); hist.addf("File::unlink(\"%s\")\n", p); injHist();
         arm(); bool ret = File::unlink(String(p, strlen(p))); bool inj = disarm();
         bool want = exists && !inj;
         if (ret != want) fail(FKEY("result"), "unlink returned %d, expected %d", (int)ret, (int)want);
@@ -489,10 +531,14 @@ static void fileHistories() {
       case 12: case 13: { // rename
         bool fie = r.chance(1, 2); int sc = (int)r.below(12), dc = (int)r.below(12);   // source class 0: directory, dest class 0: inside a missing directory
         if (sc == 0 && !fie) sc = 1;    // renaming the directory itself away is a successful directory move, not a file operation
-        const char* src = sc == 0 ? fc.sub("d") : fc.path(a); const char* dst = dc == 0 ? fc.sub("nodir/x") : fc.path(b);
-        bool sEx = sc && fc.name[a] >= 0, dEx = dc && fc.name[b] >= 0; bool same = sc && dc && a == b;
+        if (sweep) { sc = 1; if (dc == 0 && a == b) dc = 1; if (r.chance(1, 2)) fie = true; }
+        const char* src = fc.spell(sc == 0 ? "d" : la, s1); const char* dst = fc.spell(dc == 0 ? "nodir/x" : lb, s2);
+        bool sEx = sc && fc.name[a] >= 0, dEx = dc && fc.name[b] >= 0; bool same = sc && dc && a == b; bool respelled = same && s1 != s2;   // same entry, textually different arguments
         static const int fns[] = { fsshim::F_RENAME, fsshim::F_OPEN }; planInj(r, fns, 2, 1); if (g_inj.on && g_inj.fn == fsshim::F_OPEN && !fie) g_inj.fn = fsshim::F_RENAME;
-        setctxf("File.rename/src=%s,dst=%s,%s%s", sc == 0 ? "directory" : sEx ? (same ? "existing-same-as-dst" : "existing") : (same ? "missing-same-as-dst" : "missing"), dc == 0 ? "in-missing-directory" : dEx ? "existing" : "missing", fie ? "failIfExists" : "replace", injTag());
+        if (sweep) g_inj.on = false;
+        setctxf("File.rename/src=%s,dst=%s,%s%s%s", sc == 0 ? "directory" : sEx ? (respelled ? "existing-alias-of-dst" : same ? "existing-same-as-dst" : "existing") : (respelled ? "missing-alias-of-dst" : same ? "missing-same-as-dst" : "missing"),
+                dc == 0 ? "in-missing-directory" : dEx ? "existing" : "missing", fie ? "failIfExists" : "replace", (s1 || s2) ? ",path=aliased" : "", injTag());
+        if (respelled) { char it[96]; snprintf(it, sizeof it, "%s>%s", SPELL[s1], SPELL[s2]); if (!sEx) { cnt(fie ? "rename_missing_source_alias_of_dst_failIfExists" : "rename_missing_source_alias_of_dst_replace"); setItem("rename_missing_alias_pairs", it); } else { cnt("rename_existing_source_alias_of_dst"); setItem("rename_existing_alias_pairs", it); } }
         hist.addf("File::rename(\"%s\", \"%s\", failIfExists=%d)\n", src, dst, (int)fie); injHist();
         arm(); bool ret = File::rename(String(src, strlen(src)), String(dst, strlen(dst)), fie); bool inj = disarm();
         bool want = sEx && dc && !(fie && dEx) && !inj;
@@ -501,14 +547,16 @@ static void fileHistories() {
         cnt("op_rename"); break; }
       case 14: case 15: { // copy
         bool fie = r.chance(1, 2); int sc = (int)r.below(12), dc = (int)r.below(12);
-        if (sc && dc && a == b) b = (a + 1) % 3;   // copying a file onto itself is outside the statement
-        const char* src = sc == 0 ? fc.sub("d") : fc.path(a); const char* dst = dc == 0 ? fc.sub("nodir/x") : fc.path(b);
+        if (sweep) sc = 1;
+        if (sc && dc && a == b) { b = (a + 1) % 3; snprintf(lb, sizeof lb, "f%d", b); }   // copying a file onto itself is outside the statement
+        const char* src = fc.spell(sc == 0 ? "d" : la, s1); const char* dst = fc.spell(dc == 0 ? "nodir/x" : lb, s2);
         bool sEx = sc && fc.name[a] >= 0, dEx = dc && fc.name[b] >= 0;
         long ssize = sEx ? (long)fc.inos[(size_t)fc.name[a]]->d.n : 0;
         static const int fns[] = { fsshim::F_OPEN, fsshim::F_SENDFILE, fsshim::F_SENDFILE }; planInj(r, fns, 3, 1);
         if (g_inj.on && g_inj.fn == fsshim::F_OPEN) g_inj.nth = r.range(1, 2);
         if (g_inj.on && g_inj.fn == fsshim::F_SENDFILE) { if (ssize >= 1 && r.chance(1, 2)) g_inj.sh = r.range(0, ssize - 1); }
-        setctxf("File.copy/src=%s,dst=%s,%s%s", sc == 0 ? "directory" : sEx ? "existing" : "missing", dc == 0 ? "in-missing-directory" : dEx ? "existing" : "missing", fie ? "failIfExists" : "replace", injTag());
+        if (sweep) g_inj.on = false;
+        setctxf("File.copy/src=%s,dst=%s,%s%s%s", sc == 0 ? "directory" : sEx ? "existing" : "missing", dc == 0 ? "in-missing-directory" : dEx ? "existing" : "missing", fie ? "failIfExists" : "replace", (s1 || s2) ? ",path=aliased" : "", injTag());
         hist.addf("File::copy(\"%s\", \"%s\", failIfExists=%d)\n", src, dst, (int)fie); injHist();
         arm(); bool ret = File::copy(String(src, strlen(src)), String(dst, strlen(dst)), fie); bool inj = disarm();
         bool want = sEx && dc && !(fie && dEx) && !inj;
@@ -519,14 +567,20 @@ static void fileHistories() {
       }
       verifyDisk();
       cnt("ops");
+      if (alias && (onePath || twoPaths)) {
+        if (s1) { cnt("aliased_path_arguments"); setItem("alias_spellings", SPELL[s1]); }
+        if (twoPaths && s2) { cnt("aliased_path_arguments"); setItem("alias_spellings", SPELL[s2]); }
+        if (failures > failuresBefore && (s1 || (twoPaths && s2))) { ++aliasFailures; cnt("failing_calls_with_aliased_path"); }
+        if (sweep) cnt("sweep_ops");
+      }
     }
     setctx("File.destructor");
     for (int i = 0; i < 2; ++i) delete fc.h[i].f;
     for (size_t i = 0; i < fc.inos.n; ++i) delete fc.inos[i];
-    { char p[200]; snprintf(p, sizeof p, "%s/F%ld", scratch::root, idx); scratch::rmrf(p); }
-    if (idx % 211 == 0) sample("%.1200s", hist.c());
+    { char p[200]; snprintf(p, sizeof p, "%s/F%ld", scratch::root, idx); scratch::rmrf(p); scratch::rmrf(sideLink); }
+    if (idx % 211 == 0) sample(alias ? "%.2400s" : "%.1200s", hist.c());
     F = 0;
-    endCase(fp, okMoves > 0 && failures > 0);
+    endCase(fp, okMoves > 0 && failures > 0 && (!alias || aliasFailures > 0));
   }
 }
 
@@ -725,7 +779,8 @@ static int worker(int argc, char** argv) {
   else if (!strcmp(m, "paths-comp")) pathsComp();
   else if (!strcmp(m, "paths-rel")) pathsRel();
   else if (!strcmp(m, "paths-rand")) pathsRand();
-  else if (!strcmp(m, "files")) fileHistories();
+  else if (!strcmp(m, "files")) fileHistories(false);
+  else if (!strcmp(m, "files-alias")) fileHistories(true);
   else if (!strcmp(m, "trees")) treeCases();
   else harnessBug("unknown mode %s", m);
   cnt("path_inputs", g_pathChecks);
